@@ -339,9 +339,17 @@ Proof.
     match goal with P1 : plain_ts ts = true, H1 : hse_ts ts wl = false |- _ => bind (TLS ts P1 wl H1 o0) end.
     sfinish.
   - (* SAug *) intros t v P wl H o. cbn [plain_s hse_s exec] in *. split_hyps. lift_nil wl. lift_nil_t wl.
-    bindE (ES v) o.
-    match goal with P1 : plain_t t = true, H1 : hse_t t wl = false |- _ => bind (TS t P1 wl H1 o0) end.
-    sfinish.
+    destruct t as [x | e a | e i | ts | t']; cbn [aug_parts store_event hse_t plain_t] in *;
+      try discriminate; split_hyps.
+    + (* TName *) match goal with Hx : negb _ = false |- _ => apply negb_false_iff in Hx; rename Hx into Hu end.
+      bindE (ES v) o. unfold sok. cbn [fst snd]. rewrite !ab_app. cbn [all_benign forallb benign].
+      rewrite Hu. repeat match goal with Bx : all_benign _ _ = true |- _ => rewrite Bx; clear Bx end. split; reflexivity.
+    + (* TSub *) match goal with Hx : negb _ = false |- _ => apply negb_false_iff in Hx; rename Hx into Hu end.
+      bindE (ES e) o. bindE (ES i) o0. bindE (ES v) o1.
+      unfold sok. cbn [fst snd]. rewrite !ab_app. cbn [all_benign forallb benign].
+      rewrite Hu. repeat match goal with Bx : all_benign _ _ = true |- _ => rewrite Bx; clear Bx end. split; reflexivity.
+    + (* TSeq *) bindE (ES v) o. sfinish.
+    + (* TStar *) bindE (ES v) o. sfinish.
   - (* SPass *) intros _ wl _ o. split; reflexivity.
   - (* SControl *) intros; discriminate.
   - (* SIf *) intros t b IHb e IHe P wl H o. cbn [plain_s hse_s exec] in *. split_hyps.
